@@ -158,6 +158,42 @@ func (p *Prog) valState(v ssa.Value, at, pred *ssa.BasicBlock, depth int) NilSta
 		if st != Unknown {
 			return st
 		}
+		// merged results of an inlined helper: `r, e := phi(nil | v), phi(err | nil)`; where e is known nil (the use
+		// lies behind `if e != nil { return }`) only the edges on which e can be nil brought r here
+		if at != nil && depth < 3 {
+			for _, in := range x.Block().Instrs {
+				e, ok := in.(*ssa.Phi)
+				if !ok {
+					break
+				}
+				if e == x || !IsErrorType(e.Type()) || len(e.Edges) != len(x.Edges) {
+					continue
+				}
+				if p.domFact(e, at, pred) != IsNil {
+					continue
+				}
+				st, n := Unknown, 0
+				for i := range x.Edges {
+					if i >= len(x.Block().Preds) {
+						break
+					}
+					pb := x.Block().Preds[i]
+					if p.edgeState(e.Edges[i], pb, x.Block(), depth+1) == NonNil {
+						continue // this edge carried an error: not the way we came
+					}
+					s := p.edgeState(x.Edges[i], pb, x.Block(), depth+1)
+					if n == 0 {
+						st = s
+					} else if s != st {
+						st = Unknown
+					}
+					n++
+				}
+				if n > 0 && st != Unknown {
+					return st
+				}
+			}
+		}
 	}
 	// facts from dominating branches
 	if at != nil {
@@ -775,8 +811,16 @@ func (p *Prog) SuccessBlocks(c ssa.Value) []*ssa.BasicBlock {
 	if in, ok := c.(ssa.Instruction); ok {
 		fn = in.Parent()
 	}
-	if fn == nil || len(out) == 0 {
+	if fn == nil {
 		return out
+	}
+	isErrVal := func(v ssa.Value) bool {
+		for _, ev := range errVals {
+			if ev == v {
+				return true
+			}
+		}
+		return false
 	}
 	for changed, round := true, 0; changed && round < 4; round++ {
 		changed = false
@@ -796,7 +840,7 @@ func (p *Prog) SuccessBlocks(c ssa.Value) []*ssa.BasicBlock {
 						continue
 					}
 					any = true
-					inside := false
+					inside := isErrVal(e) // the call's own error arriving here: nil exactly when the call succeeded
 					for _, sb := range out {
 						if sb.Dominates(pred) {
 							inside = true
